@@ -424,10 +424,11 @@ func (e *Exec) applyContract(fr *Frame, st *State, fc *FuncContract, args []Val,
 		e.sc.assume(st.reach, f)
 	}
 	pre := st.clone()
-	e.applyModifies(env, fc, st)
-	// allocation only grows
+	e.preAlloc = e.hget(st, "G_alloc")
+	// allocation only grows (done first: facts about havocked locations refer to the new bound)
 	e.hhavoc(st, "G_alloc")
 	e.sc.assume(st.reach, "(>= "+e.hget(st, "G_alloc")+" "+e.hget(pre, "G_alloc")+")")
+	e.applyModifies(env, fc, st)
 	res := e.resultVal(st, "res."+shortKey(fc.Key), sig)
 	env2 := &SpecEnv{e: e, fr: fr, st: st, old: pre, vars: map[string]Val{}, oldVars: vars}
 	for k, v := range vars {
@@ -628,12 +629,16 @@ func (e *Exec) applyModifies(env *SpecEnv, fc *FuncContract, st *State) {
 				keep = append(keep, kept{m, e.hget(st, m)})
 			}
 		}
-		a0 := e.hget(st, "G_alloc")
+		a0 := e.preAlloc
+		if a0 == "" {
+			a0 = e.hget(st, "G_alloc")
+		}
 		e.havocAll(st)
+		_ = a0
 		for _, k := range keep {
-			n := e.hhavoc(st, k.name)
-			q := e.sc.freshName("q.r")
-			e.sc.assume(st.reach, fmt.Sprintf("(forall ((%s Int)) (! (=> %s (= (select %s %s) (select %s %s))) :pattern ((select %s %s))))", q, e.existedAtEntry(q, a0), n, q, k.term, q, n, q))
+			// the preserved map keeps its term: exact for every pre-existing object; for objects the
+			// callee allocates the (unconstrained) pre-state value stands in, i.e. nothing is learnt about them
+			st.heap[k.name] = k.term
 		}
 		return
 	}
@@ -1063,9 +1068,11 @@ func (e *Exec) checkGuardMap(fr *Frame, st *State, m ssa.Value, pos token.Pos, w
 func (e *Exec) rawModMaps(c *Clause) []string {
 	if strings.HasPrefix(c.RawMod, "heap:") {
 		n := strings.TrimPrefix(c.RawMod, "heap:")
+		if n == "B_Slice" {
+			e.boxHeap(types.NewSlice(types.Typ[types.Byte]))
+		}
 		if _, ok := e.heapSort[n]; !ok {
-			e.errorf("%s:%d: unknown heap map %s", c.File, c.Line, n)
-			return nil
+			return nil // not touched by this unit (yet): nothing to preserve or havoc
 		}
 		return []string{n}
 	}
